@@ -651,6 +651,50 @@ fn c01(r: &Runner) {
             }
         });
     }
+    for bits in [0usize, 1, 7, 64, 65, 128, 129, 256, 257] {
+        long_seqs(r, "long sums", bits, SUMS, false);
+    }
+}
+
+/// Long sequences for `Sum` / `Product`: every length in a list that brackets the block sizes a chunked or unrolled
+/// reduction could use (8, 16, 32, 64 and their neighbours), filled with a few fixed patterns. A reduction that works in
+/// blocks and keeps scratch state between blocks is only wrong for lengths that are NOT a multiple of its block.
+fn long_seqs(r: &Runner, what: &str, bits: usize, ops: &'static [Op], product: bool) {
+    let n = nlimbs(bits);
+    let lens: Vec<usize> = {
+        let mut l: Vec<usize> = (4..=20).collect();
+        l.extend([23, 24, 25, 31, 32, 33, 47, 48, 49, 63, 64, 65, 100, 127, 128, 129, 257]);
+        l
+    };
+    let word = |w: u64| { let mut v = vec![0u64; n]; if n > 0 { v[0] = w; let last = n - 1; v[last] &= mask(bits); } v };
+    let mx = max_limbs(bits);
+    let half = { let mut v = vec![u64::MAX; n]; if n > 0 { v[n - 1] = mask(bits) >> 1; } v };
+    let mut seqs: Vec<V> = vec![];
+    for &len in &lens {
+        // 1, 2, 3, ... ; all ones; all MAX; MAX/2 repeated; alternating 1 / MAX; one large item at every 7th place; 3, 3, 3, ...
+        let pats: Vec<Box<dyn Fn(usize) -> Limbs>> = vec![
+            Box::new(|i| word(i as u64 + 1)),
+            Box::new(|_| word(1)),
+            Box::new(|_| mx.clone()),
+            Box::new(|_| half.clone()),
+            Box::new(|i| if i % 2 == 0 { word(1) } else { mx.clone() }),
+            Box::new(|i| if i % 7 == 6 { half.clone() } else { word(2) }),
+            Box::new(|_| word(3)),
+            Box::new(|i| word(0x9E37_79B9_7F4A_7C15u64.wrapping_mul(i as u64 + 1) | 1)),
+        ];
+        for (k, p) in pats.iter().enumerate() {
+            if product && len > 65 && k != 1 && k != 6 {
+                continue; // long products of large factors are all zero or all alike: keep the informative ones
+            }
+            seqs.push(V::L((0..len).map(|i| vu(&p(i))).collect()));
+        }
+    }
+    r.universe(&format!("{what}: {} sequences of length 4..=20, 23..25, 31..33, 47..49, 63..65, 100, 127..129, 257 in 8 patterns", seqs.len()), bits, seqs.len(), |i, l| {
+        l.states(1);
+        for &op in ops {
+            exec(l, bits, op, &[seqs[i].clone()]);
+        }
+    });
 }
 
 fn c02(r: &Runner) {
@@ -693,6 +737,9 @@ fn c02(r: &Runner) {
     for bits in [64usize, 65, 128, 129] {
         let u = limb_product(bits, A3).unwrap();
         run_seqs(r, &format!("L({bits};A3)^(0..3) products"), bits, &u, PRODUCTS);
+    }
+    for bits in [0usize, 1, 7, 64, 65, 128, 129, 256, 257] {
+        long_seqs(r, "long products", bits, PRODUCTS, true);
     }
     if !SWEEP {
         widening(r);
